@@ -12,6 +12,9 @@ overwritten the way PuLP 2.9.0's CBC adapter would report it:
   NotSolvedEarly  (same, stopped for another reason: clock advances by a normal step only)
   Incumbent   Optimal       IntegerFeasible   a feasible point   +timeLimit   (needs a limit)
 
+  Raises      (unchanged)   (unchanged)       unchanged          +step   the back end dies: PuLP raises
+                                                                        PulpSolverError out of solve()
+
 policy in {zero, prev, true}.  A fault is transient (that solve only) or
 persistent (that solve and all later ones).
 """
@@ -23,6 +26,10 @@ from . import refbackend, solverio, strategies
 from .common import HarnessError, Violation, call_repo
 
 KINDS = ['Infeasible', 'Unbounded', 'Undefined', 'NotSolved', 'NotSolvedEarly', 'Incumbent']
+# not one of the listed outcomes but "otherwise unsolved": CBC dies / leaves no solution file and
+# PuLP raises PulpSolverError from inside solve().  Enumerated separately (RAISES) with the
+# weaker oracle "the exception reaches the caller, or the results present no matching".
+RAISES = 'Raises'
 POLICIES = ['zero', 'prev', 'true']
 STATUS = {
     'Infeasible': (constants.LpStatusInfeasible, constants.LpSolutionInfeasible),
@@ -91,7 +98,12 @@ class FaultRun(object):
     """
 
     def __init__(self, inst, opts, plan=(), time_limit=None, mode='eb', choices=(), salt=0,
-                 steps_ms=(1,), warmup=False, threads=None):
+                 steps_ms=(1,), warmup=False, threads=None, bystander=None, resolve=False):
+        self.resolve = resolve          # solve the same object again, fault-free, and read it
+        self.short2 = None
+        self.bystander = bystander      # None | {'opts': option set, 'inst': sibling or None}
+        self.raised = False
+        self.lp_status = {}
         self.warmup = warmup
         self.threads = threads
         self.inst, self.opts = inst, opts
@@ -114,6 +126,18 @@ class FaultRun(object):
         f = self._active(k)
         vs = lp.variables()
         true_values = {v.name: v.varValue for v in vs}
+        before = self.lp_status.get(id(lp), (constants.LpStatusNotSolved,
+                                              constants.LpSolutionNoSolutionFound))
+        if f is not None and f['kind'] == RAISES:
+            # the adapter raises before it assigns a status or reads any value: the problem
+            # keeps the status and the values it had before this solve
+            from pulp import PulpSolverError
+            self.fired.append((k, RAISES))
+            for v in vs:
+                v.varValue = self.prev_values.get(v.name, v.varValue)
+            lp.status, lp.sol_status = before
+            rec.status = 'Raised'
+            raise PulpSolverError('Pulp: Error while executing cbc (injected: the solver died)')
         if f is not None:
             kind = f['kind']
             if kind == 'Incumbent' and self.time_limit is None:
@@ -148,6 +172,26 @@ class FaultRun(object):
             lp.assignStatus(st, sol)
             rec.status = SHOWN[kind] + ('*' if kind == 'Incumbent' else '')
         self.prev_values = {v.name: (v.varValue if v.varValue is not None else 0.0) for v in vs}
+        self.lp_status[id(lp)] = (lp.status, lp.sol_status)
+
+    def _bystander(self, path):
+        """Another Solver object (same file, or a sibling instance) is created, solved without
+        any fault and read between the faulted solve and the reading of its results: nothing of
+        it may show up in the results of the object under test."""
+        b = self.bystander
+        if b.get('inst') is not None:
+            path = solverio.write_instance(solverio.refmodel.render(b['inst']), 'bystander.txt')
+            na = b['inst']['na']
+        else:
+            na = self.inst['na']
+        argv = strategies.build_argv(b['opts'], path, na)
+        with refbackend.Backend(self.mode if self.mode != 'both' else 'eb', self.choices,
+                                salt=self.salt + 1, keep_sets=False):
+            other = solverio.make_solver(argv)
+            call_repo('solve()', other.solve, msg=False, timeLimit=None, threads=None,
+                      write=False)
+        call_repo('get_results()', other.get_results)
+        return other
 
     def run(self):
         text = solverio.refmodel.render(self.inst)
@@ -167,8 +211,19 @@ class FaultRun(object):
                 call_repo('get_results()', self.solver.get_results)
                 call_repo('get_results_long()', self.solver.get_results_long)
             with self.backend:
-                call_repo('solve()', self.solver.solve, msg=False, timeLimit=self.time_limit,
-                          threads=self.threads, write=False)
+                try:
+                    call_repo('solve()', self.solver.solve, msg=False,
+                              timeLimit=self.time_limit, threads=self.threads, write=False)
+                except Violation as v:
+                    if (RAISES in [k for _, k in self.fired] and v.exc
+                            and v.exc[0] == 'PulpSolverError'):
+                        self.raised = True      # the caller sees the failure: nothing to read
+                        self.short = self.long = None
+                        self.total_s = None
+                        return self
+                    raise
+            if self.bystander:
+                self._other = self._bystander(path)
             self.total_s = None
             m = self.solver.model
             try:
@@ -177,6 +232,14 @@ class FaultRun(object):
                 pass
             self.short = call_repo('get_results_short()', self.solver.get_results_short)
             self.long = call_repo('get_results_long()', self.solver.get_results_long)
+            if self.resolve:
+                # "retry": the same object is solved again and nothing fails this time
+                self.backend2 = refbackend.Backend(self.mode if self.mode != 'both' else 'eb',
+                                                   self.choices, salt=self.salt, keep_sets=False)
+                with self.backend2:
+                    call_repo('solve()', self.solver.solve, msg=False, timeLimit=None,
+                              threads=None, write=False)
+                self.short2 = call_repo('get_results_short()', self.solver.get_results_short)
         return self
 
     @property
